@@ -712,7 +712,7 @@ func (c *c39Checker) hostSide(wi int, w *c39World, p c39Params) {
 func TestC39(t *testing.T) {
 	r := mc.NewRun(t, "C39", mc.Exploration)
 	r.Rule = "part 1: every request (key type x serving side x protocol x validity instant x ordered AS pair x src/dst host) of " +
-		"the stated alphabet against a network of real control-service DRKey stacks, each world evaluated in canonical order, " +
+		"the stated alphabet (plus the secret values and level-1 keys of niche protocol ids, asked from the ServiceEngine) against a network of real control-service DRKey stacks, each world evaluated in canonical order, " +
 		"again in reverse order on the warm stores, and in reverse order on fresh stores; every served key is compared with a " +
 		"clean-room derivation from the issuer's master secret, every key is re-derived host-side from the served secret value " +
 		"and the served level-1 key with the real derivers, and all served keys of different descriptors must be pairwise " +
